@@ -1236,7 +1236,7 @@ func (r *seqRun) ownerGID(sa SA) uint32 {
 // checkNewOwner: C11 clause "new objects get the caller's effective identity".
 func (r *seqRun) checkNewOwner(name string, op Op, child string) {
 	n := r.w.FS.Lookup(child)
-	if n == nil {
+	if n == nil || r.faulted() {
 		return
 	}
 	r.o.Checks++
@@ -1310,6 +1310,12 @@ func (r *seqRun) checkAccess(name, p string, mask uint32, res *nfsclient.AccessR
 	}
 	if res.Attr == nil {
 		return
+	}
+	if r.faulty {
+		// with a failing backend ACCESS may be refused; an answer must rest on the object's real attributes
+		if n := r.w.FS.Lookup(p); n != nil && !r.loose && (res.Attr.Mode&0o7777 != uint32(n.Perm&0o7777) || res.Attr.UID != uint32(n.UID) || res.Attr.GID != uint32(n.GID)) {
+			r.vio("C12.access-decided-on-stale-attributes", "", "%s: ACCESS on %s answered NFS3_OK on mode %o owner %d:%d while the object has mode %o owner %d:%d (a backend error was injected earlier in this history)", name, p, res.Attr.Mode&0o7777, res.Attr.UID, res.Attr.GID, n.Perm&0o7777, n.UID, n.GID)
+		}
 	}
 	isDir := res.Attr.Type == nfsclient.NF3DIR
 	want := unixAccess(res.Attr.Mode, isDir, res.Attr.UID, res.Attr.GID, r.euid, r.egid, r.eaux, mask, r.readOnly)
